@@ -47,6 +47,7 @@ def gen(tier, rng):
         live = [slot]
         length = rng.randint(3, 12)
         cases.append(rz.ctl_case(slot, "new"))
+        prev = []
         for step in range(length):
             s = rng.choice(live)
             r = rng.random()
@@ -58,7 +59,37 @@ def gen(tier, rng):
                 cases.append(rz.ctl_case(s, "clone", to=slot))
                 live.append(slot)
                 continue
-            kw = rand_call(rng, big=(step % 3 == 0))
+            # near-repeats: an earlier call of this history with exactly one argument changed (what a cache keyed on too
+            # little would confuse): crop origin, filter, alpha flag, algorithm, destination size, pixel type, content only
+            if prev and rng.random() < 0.4:
+                kw = dict(rng.choice(prev))
+                what = rng.choice(["origin", "origin", "origin", "filter", "alpha", "alg", "dst", "pt", "content", "cpu"])
+                Q = kw["Q"]
+                if what == "origin":
+                    full = kw["box"] is None or (kw["box"][2] >= Q * kw["sw"] and kw["box"][3] >= Q * kw["sh"])
+                    if full:
+                        # first make room: a box one pixel smaller than the source ...
+                        bw = max(1, Q * kw["sw"] - Q)
+                        bh = max(1, Q * kw["sh"] - Q)
+                    else:
+                        # ... then the SAME box size at another origin
+                        bw, bh = min(kw["box"][2], Q * kw["sw"]), min(kw["box"][3], Q * kw["sh"])
+                    kw["box"] = (rng.randint(0, Q * kw["sw"] - bw), rng.randint(0, Q * kw["sh"] - bh), bw, bh)
+                elif what == "filter":
+                    kw["flt"] = rng.choice(rz.BUILTIN)
+                elif what == "alpha":
+                    kw["alpha"] = not kw["alpha"]
+                elif what == "alg":
+                    kw["alg"], kw["m"] = rng.choice([("conv", 1), ("interp", 1), ("ss", 1), ("ss", 2), ("nearest", 1)])
+                elif what == "dst":
+                    kw["dw"] = max(1, kw["dw"] + rng.choice([-1, 1]))
+                elif what == "pt":
+                    kw["pt"] = rng.choice(rz.ALL_PT)
+                elif what == "cpu":
+                    kw["cpu"] = rng.choice(rz.CPUS)
+            else:
+                kw = rand_call(rng, big=(step % 3 == 0))
+            prev.append(dict(kw))
             g += 1
             seed = rng.randint(1, 10 ** 9)
             base = ["pipeline", "no_panic", "outside", "srcsame"]
